@@ -30,6 +30,26 @@ SPECS = [
         ]}},
         serves=['C13'],
     ),
+    dict(
+        id='S-OnError-in-translate',
+        # the element's output goes to whatever stream is current: inside a translation block
+        # that is the block's sub-stream, and the discard must cut exactly that one
+        text='A<p i18n:translate="">t<b tal:on-error="e11">%s</b>u</p>B' % H1,
+        own_names=['error'],
+        ensures=[
+            "translate_calls() == 1",
+            "raised('h1') or (translate_arg(0, 'default') == normalize('t<b>' + out(1) + '</b>u') "
+            "and evals(11) == 0)",
+            "not raised('h1') or translate_arg(0, 'default') == normalize('t<b>' "
+            "+ ('' if quoted(val(11), None, '\\xad', None, None) is None "
+            "   else piece(quoted(val(11), None, '\\xad', None, None))) + '</b>u')",
+            "S() == S0() + 'A<p>' + piece(translate_result(0)) + '</p>B'",
+        ],
+        raises={'*': {'ensures': [
+            "(raised('h1') and not exc_is_exception()) or raised('e11')",
+        ]}},
+        serves=['C13', 'C10'],
+    ),
 ]
 
 CONTRACTS = schema_contracts(SPECS)
